@@ -787,7 +787,7 @@ Proof.
   intros I Hd. unfold step_good, SMModel.step. rewrite Hd.
   assert (m_dead m = false) as Hmd by (rewrite (i_dead I); auto).
   unfold SMSpec.track. rewrite Hmd.
-  destruct o as [pdu| | | |n|b|ediv rnd| |a].
+  destruct o as [pdu| | | |n|b|ediv rnd| |a|a e r kb].
   - (* In *)
     pose proof (l2cap_input_ok pdu I) as H. unfold in_ok in H.
     destruct (l2cap_input K D c s pdu) as [[s1 r] ev]. destruct H as (H1 & H2 & H3).
@@ -847,6 +847,9 @@ Proof.
     pose proof (i_pend I) as Hp. destruct I. unfold new_connection. inv_solve.
     + destruct (c_var c); exact Logic.I.
     + repeat split; auto; try discriminate. intros [H|H]; discriminate.
+  - (* Bond: the application adds a bond to its data base *)
+    split; [|repeat split; auto; left; reflexivity].
+    pose proof (i_db I) as Hdb. destruct I. inv_solve. rewrite Hdb. reflexivity.
 Qed.
 
 (* ---- whole traces ---- *)
@@ -972,7 +975,7 @@ Lemma check35_ok c s m o : Inv c s m -> dead s = false ->
 Proof.
   intros I Hd.
   assert (forall r, o <> Status -> check35 c m o r = None) as Hns by (intros r; destruct o; try reflexivity; congruence).
-  destruct o as [pdu| | | |n|b|ediv rnd| |a]; try (rewrite Hns; [exact Logic.I|discriminate]).
+  destruct o as [pdu| | | |n|b|ediv rnd| |a|a e r kb]; try (rewrite Hns; [exact Logic.I|discriminate]).
   unfold SMModel.step. rewrite Hd. cbn.
   pose proof (status_tag_lrel false (local_lrel I)) as H1. pose proof (status_tag_lrel true (i_link I)) as H2.
   destruct (status_tag false (local_status c s) (expected_status c m)); auto.
